@@ -1,5 +1,7 @@
+import PydapModel.CE
 import PydapModel.Generated.Tables
 import PydapModel.IterData
+import PydapModel.Seq
 import PydapModel.Sexp
 import PydapModel.Slice
 import PydapModel.TableVal
